@@ -289,6 +289,40 @@ def check_transition(t, qmax):
     return 'ok', None
 
 
+def walks(ts, qmax, nwalks, depth, seed):
+    """paths through the model's state graph executed on ONE live object each (no reloading between steps): the internal
+    layout of a container (the heap array of the priority queue) depends on the path, not only on the abstract state"""
+    rng = random.Random(seed)
+    by = {}
+    for t in ts:
+        by.setdefault((t['kind'], json.dumps(_norm_state(t['kind'], t['pre']), sort_keys=True)), []).append(t)
+    bad, nsteps = [], 0
+    kinds = sorted({t['kind'] for t in ts})
+    for w in range(nwalks):
+        kind = kinds[w % len(kinds)]
+        real = Real(kind, qmax)
+        cur = _norm_state(kind, [] if kind != 'counter' else 0)
+        path = []
+        for _ in range(depth):
+            opts = by.get((kind, json.dumps(cur, sort_keys=True)))
+            if not opts:
+                break
+            puts = [t for t in opts if t['op'] == 'put']
+            t = rng.choice(puts) if puts and rng.random() < 0.45 else rng.choice(opts)
+            if kind == 'set' and t['op'] == 'pop':
+                continue
+            want, post = _norm_res(t['res']), _norm_state(kind, t['post'])
+            got = _outcome(lambda: real.call(t['op'], t['args']))
+            rs = real.state()
+            nsteps += 1
+            path.append([t['op'], t['args']])
+            if got != want or rs != post:
+                bad.append(dict(kind=kind, walk=path, model=want, model_post=post, battery=got, battery_post=rs, qmax=qmax))
+                break
+            cur = post
+    return bad, nsteps
+
+
 def replicated_run(seed, steps=500):
     """random battery operations through a real 3-node cluster with compaction and a lagging follower; all replicas
     must end up equal to each other and to the builtins fed in commit order"""
@@ -407,6 +441,17 @@ def run(prop, tier, seed, out=print):
                     viols.append(detail)
             samples += ts[:2]
         out('  [spec->code] %d model transitions executed on the real batteries: %d agree, %d differ' % (total, ok, len(viols)))
+        # paths (the queues on a larger domain): one live object per path
+        ts, st, o = transitions('batteries_pq.cfg', workdir)
+        stats.append(st)
+        if not st['completed'] or not ts:
+            machinery.append('Batteries.tla / batteries_pq.cfg: %s' % o[-500:])
+        else:
+            wbad, wsteps = walks(ts, 0, 600 if tier == 'quick' else 20000, 24, seed)
+            out('  [spec->code] batteries_pq.cfg: %d distinct states; %d steps along random paths of the state graph on live queues: %d paths differ'
+                % (st['distinct'], wsteps, len(wbad)))
+            total += wsteps
+            viols += wbad[:5]
         nrep = 6 if tier == 'quick' else 60
         bad_rep = []
         for k in range(nrep):
@@ -429,6 +474,8 @@ def run(prop, tier, seed, out=print):
 def signature(v):
     if v.get('kind') == 'replicas':
         return 'replicas'
+    if 'walk' in v:
+        return '%s.path' % v['kind']
     return '%s.%s%s' % (v['kind'], v['op'], '()' if not v['args'] else '(..)')
 
 
@@ -474,6 +521,17 @@ def replay(path, out=print):
     if v.get('kind') == 'replicas':
         r = replicated_run(v['seed'])
         bad = (not r['equal']) or r['nexc']
+    elif 'walk' in v:
+        # the recorded path on a live object against the builtin the battery mimics
+        real, ref = Real(v['kind'], v.get('qmax', 0)), Builtin(v['kind'], v.get('qmax', 0))
+        bad = False
+        for op, args in v['walk']:
+            got = _outcome(lambda: real.call(op, args))
+            exp = _outcome(lambda: ref.call(op, args))
+            if got != exp or real.state() != ref.state():
+                bad = True
+                out('  %s%s: battery %s / %s, builtin %s / %s' % (op, args, got, real.state(), exp, ref.state()))
+                break
     else:
         t = {'kind': v['kind'], 'pre': v['pre'], 'op': v['op'], 'args': v['args'], 'res': {'ok': NONE if v['model'].get('ok', 0) is None else v['model'].get('ok')} if 'ok' in v['model'] else {'err': v['model']['err']}, 'post': v['model_post']}
         verdict, detail = check_transition(t, v.get('qmax', 2))
